@@ -33,8 +33,11 @@ type c12Case struct {
 	FirstSeq uint32 `json:"sequence_number_before_first_chunk"`
 	Msgs     int    `json:"messages"`
 	Seed     int64  `json:"seed"`
-	Detail   string `json:"detail,omitempty"`
-	Order    string `json:"chunk_order,omitempty"`
+	// ManyAborts: a long history on one channel with a chunk limit of 8: rounds of an aborted 3-chunk message
+	// followed by a complete multi-chunk message
+	ManyAborts bool   `json:"many_aborts,omitempty"`
+	Detail     string `json:"detail,omitempty"`
+	Order      string `json:"chunk_order,omitempty"`
 }
 
 type c12Msg struct {
@@ -175,7 +178,12 @@ func c12FirstSeq(r *rand.Rand) uint32 {
 
 func c12ServerSide(c *fw.Ctx, cs c12Case) {
 	r := rand.New(rand.NewSource(cs.Seed))
-	bs, err := newBareServer(nil)
+	var ack *uacp.Acknowledge
+	if cs.ManyAborts {
+		// a small chunk limit, so that what aborted messages leave behind (if anything) adds up quickly
+		ack = &uacp.Acknowledge{ReceiveBufSize: 65535, SendBufSize: 65535, MaxChunkCount: 8, MaxMessageSize: 0}
+	}
+	bs, err := newBareServer(ack)
 	if err != nil {
 		c.Inconclusive("listen: " + err.Error())
 		return
@@ -258,6 +266,26 @@ func c12ServerSide(c *fw.Ctx, cs c12Case) {
 
 	msgs := c12Messages(r, cs.Msgs, false)
 	order := c12Order(r, msgs)
+	if cs.ManyAborts {
+		msgs, order = nil, nil
+		for round := 0; round < 25; round++ {
+			ab := &c12Msg{reqID: uint32(100 + 2*round), abortAt: 3, nonce: fmt.Sprintf("a%d", round)}
+			ab.body = c12Body(r, ab.nonce, 2000)
+			ab.parts = c12Split(r, ab.body, 4)
+			ok := &c12Msg{reqID: uint32(101 + 2*round), abortAt: -1, nonce: fmt.Sprintf("k%d", round)}
+			ok.body = c12Body(r, ok.nonce, 3000)
+			ok.parts = c12Split(r, ok.body, 2+r.Intn(4))
+			bi, oi := len(msgs), len(msgs)+1
+			msgs = append(msgs, ab, ok)
+			for k := 0; k < 3; k++ {
+				order = append(order, [2]int{bi, k})
+			}
+			order = append(order, [2]int{bi, len(ab.parts)}) // the abort chunk
+			for k := range ok.parts {
+				order = append(order, [2]int{oi, k})
+			}
+		}
+	}
 	desc, err := c12Send(ch, msgs, order)
 	cs.Order = desc
 	if err != nil {
@@ -528,6 +556,9 @@ func c12Run(c *fw.Ctx) error {
 		}
 		r := c.Rng("c12", i)
 		cs := c12Case{Index: i, Side: []string{"server-channel", "client-channel"}[i%2], Mode: []int{1, 1, 2, 3}[r.Intn(4)], FirstSeq: c12FirstSeq(r), Msgs: 1 + r.Intn(5), Seed: r.Int63()}
+		if i%16 == 0 {
+			cs.Side, cs.ManyAborts = "server-channel", true
+		}
 		c.Journal(i, cs)
 		if cs.Side == "server-channel" {
 			c12ServerSide(c, cs)
@@ -558,7 +589,7 @@ func init() {
 	fw.Register("C12", fw.Spec{
 		Plan: func(tier string) fw.Plan {
 			p := fw.Plan{Batches: 8, TimeoutS: 900, MinNontrivial: 200, Level: "exploration",
-				Rule:        "conforming chunk streams written by the independent reference peer to a bare gopcua secure channel over TCP (server-kind channel fed by the reference client with WriteRequests; client-kind channel whose concurrent requests the reference server answers): 1-5 messages of 0-60 kB cut into 1-5 chunks at uneven positions (empty final chunks included), chunks of different request ids interleaved, abort chunks after some intermediate chunks, first sequence number anywhere incl. the wrap to 0 within the first chunks; modes None, Sign, SignAndEncrypt (Basic256Sha256); oracle: every complete message is delivered exactly once with byte-equal re-encoding, aborted ones are not delivered, nothing else is affected; distinct = streams",
+				Rule:        "conforming chunk streams written by the independent reference peer to a bare gopcua secure channel over TCP (server-kind channel fed by the reference client with WriteRequests; client-kind channel whose concurrent requests the reference server answers): 1-5 messages of 0-60 kB cut into 1-5 chunks at uneven positions (empty final chunks included), chunks of different request ids interleaved, abort chunks after some intermediate chunks, first sequence number anywhere incl. the wrap to 0 within the first chunks; modes None, Sign, SignAndEncrypt (Basic256Sha256); every 16th stream is a long history on a channel limited to 8 chunks: 25 rounds of a message aborted after 3 chunks followed by a complete 2-5 chunk message; oracle: every complete message is delivered exactly once with byte-equal re-encoding, aborted ones are not delivered, nothing else is affected; distinct = streams",
 				Assumptions: []string{"delivery is compared on the re-encoding of the decoded message (the codec is the subject of C01-C03)", "after an abort error the harness keeps calling Receive on the bare channel"}}
 			if tier == "thorough" {
 				p.Batches, p.TimeoutS, p.MinNontrivial = 16, 3000, 20000
